@@ -170,6 +170,29 @@ impl<'t> Glob<'t> {
         .walk_with_behavior(behavior)
     }
 
+    /// Verification hook: the patterns of the per-component programs that `walk_with_behavior`
+    /// hands to the walker (same call, same empty-glob special case).
+    #[cfg(olson_sean_k_wax_verif)]
+    pub fn verif_walk_component_patterns(&self) -> Vec<String> {
+        if self.is_empty() {
+            vec![]
+        }
+        else {
+            WalkProgram::compile::<Tokenized<_>>(self.tree.as_ref())
+                .expect("failed to compile walk program")
+                .into_iter()
+                .map(|regex| regex.as_str().to_string())
+                .collect()
+        }
+    }
+
+    /// Verification hook: the root and pivot that `walk_with_behavior` computes for `path`.
+    #[cfg(olson_sean_k_wax_verif)]
+    pub fn verif_anchor(&self, path: impl Into<PathBuf>) -> (PathBuf, usize) {
+        let Anchor { root, pivot } = self.anchor(path);
+        (root, pivot)
+    }
+
     fn anchor(&self, path: impl Into<PathBuf>) -> Anchor {
         let path = path.into();
         let prefix: Option<PathBuf> = {
@@ -471,6 +494,25 @@ impl FilterAnyProgram {
 #[derive(Clone, Debug)]
 pub struct FilterAny {
     program: FilterAnyProgram,
+}
+
+#[cfg(olson_sean_k_wax_verif)]
+impl FilterAny {
+    /// Verification hook: the (exhaustive, nonexhaustive) partition patterns of this filter.
+    pub fn verif_patterns(&self) -> (Option<String>, Option<String>) {
+        use FilterAnyProgram::{Empty, Exhaustive, Nonexhaustive, Partitioned};
+
+        let text = |regex: &Regex| regex.as_str().to_string();
+        match self.program {
+            Empty => (None, None),
+            Exhaustive(ref exhaustive) => (Some(text(exhaustive)), None),
+            Nonexhaustive(ref nonexhaustive) => (None, Some(text(nonexhaustive))),
+            Partitioned {
+                ref exhaustive,
+                ref nonexhaustive,
+            } => (Some(text(exhaustive)), Some(text(nonexhaustive))),
+        }
+    }
 }
 
 impl FilterAny {
